@@ -20,6 +20,7 @@ RULE = (
     "list every feasible value, min/max must bound the feasible values (signed and unsigned), solution(e, v) must "
     "not be False for a feasible v, and is_true/is_false must not claim what a model refutes.  Non-trivial: the tree "
     "has an operator and a variable; distinct by descriptor hash."
+    " Session 4: different variables with the same declared range behind undecided Ifs; shifts by byte-reversed amounts; unaligned declared ranges (recorded finding)."
 )
 ASSUMPTIONS = [
     "an SI annotation declares the variable's range: the reference model set is the constraints restricted to assignments inside the annotated intervals",
